@@ -88,5 +88,13 @@ CLAIMS = {
           'parseDir_error_iff + goFiles_none_iff (error iff some entry with extension go is unreadable / undecodable / unparsable; never a partial map; other entries ignored). The model is validated against the real functions on generated directories written to disk (names, extensions, package names, BOMs, valid and damaged contents, invalid UTF-8, dangling symlinks, missing directory) and the property is evaluated on the implementation output by an oracle built from in-memory parses.',
   'note': 'OS enumeration order and permission errors are outside the model; Path::extension is modelled as std documents it.',
  },
+ 'C14': {
+  'category': 'proof',
+  'technique': 'Lean 4 round-trip theorems on the operator fragment (climb_flat / climb_preserves) and on the tree encoding (File.rt) + print-and-reparse of every accepted input against the real parser',
+  'text': 'Proved: on the binary-operator fragment, flatten-then-parse is the identity on well-grouped trees and parse-then-flatten is the identity on sequences (any size), and the JSON tree the printer reads determines the tree. '
+          'The whole-language statement is decided by execution: every accepted input (corpus programs, statements, expressions; 1-3 token mutants; token soup; all short token sequences in 19 syntactic contexts - which reach tree shapes no valid program produces) is printed from the implementation tree by a straightforward printer and re-parsed; '
+          'it must be accepted and equal up to positions, comments and empty statements. Partial proof + translation validation.',
+  'note': 'The printer (tools/orch/goprint.py) is an oracle-side tool; its choices (parentheses only for Paren nodes and the operand of &, trailing comma in type-parameter lists of type declarations) are listed in DESIGN.md.',
+ },
 }
 NOT_CLAIMED = {}
